@@ -6,7 +6,11 @@ corresponding cache write; (SIB) the reader and writer cache implementations of 
 query interface call the same query functions; (SQL) a key lookup into a JSON map
 uses only the map's immediate children (json_each, or json_tree constrained by
 path/parent) and skips null (redacted) entries; the status queries group on the
-JSON path that the serialized State actually has.
+JSON path that the serialized State actually has. 
+A run-time JSON key addressed with `->` excludes JSON null; `list_by_status` filters
+with the granularity of the filter type; `Cache::remove` deletes the row only when the
+store reports the object absent (otherwise refreshes it); the write-through upsert
+replaces the cached object unconditionally.
 Not decided: equality of query results with direct evaluation."""
 import re
 
